@@ -99,7 +99,7 @@ def views(x):
     return (x.s, len(x), w, str(x), repr(x))
 
 
-OPS = ["add", "radd", "addstr", "mul", "slice", "index", "splice", "append", "join", "split",
+OPS = ["add", "radd", "addstr", "iadd", "imul", "mul", "slice", "index", "splice", "append", "join", "split",
        "splitlines", "ljust", "rjust", "cwna", "nwar", "cwns", "was", "wasl", "linesplit",
        "deleg", "rewrap", "fromstr", "copy", "fsarray", "setslice", "observe", "observe", "observe"]
 
@@ -118,6 +118,16 @@ def do_op(rng, op, pool):
     i, j = sorted((rng.randint(-1, L + 1), rng.randint(-1, L + 1)))
     if op == "add":
         return [a, b], [a + b]
+    if op == "iadd":
+        acc = a
+        acc += b                    # augmented assignment must rebind, never edit `a` in place
+        acc2 = a
+        acc2 += "s"
+        return [a, b], [acc, acc2]
+    if op == "imul":
+        acc = a
+        acc *= 2
+        return [a], [acc]
     if op == "radd":
         return [a], ["xy" + a]
     if op == "addstr":
